@@ -11,7 +11,7 @@ Variables (Vars registry), by key:
   ('N', name, orbs)           entry of a non-symmetric tensor
   ('Y', name)                 plain symbol
   ('R', prime)                sqrt(prime)         constraint  r*r = prime, r > 0
-  ('I', form)                 1 / linear form     form = tuple of (var, int coef), primitive,
+  ('I', form)                 1 / polynomial      form = tuple of (monomial, int coef), primitive,
                               first coefficient positive;  constraint  inv * form = 1
 """
 from fractions import Fraction
@@ -59,7 +59,8 @@ class Vars:
         if k[0] == "R":
             return f"sqrt({k[1]})"
         if k[0] == "I":
-            return "1/(" + " ".join(f"{c:+d}*{self.describe(v)}" for v, c in k[1]) + ")"
+            return "1/(" + " ".join(f"{c:+d}*" + "*".join(self.describe(v) for v in m)
+                                    for m, c in k[1]) + ")"
         return str(k)
 
     def __len__(self):
@@ -134,27 +135,24 @@ class FreeValuation:
 
     # -- linear forms / inverses ------------------------------------------------
     def inverse_of(self, ml, power):
-        """monomial list of (linear form)^(-power), power > 0."""
+        """monomial list of (polynomial)^(-power), power > 0.  The polynomial is
+        reduced to primitive integer form (content and sign pulled out)."""
         comb = ml_combine(ml)
         if not comb:
             raise Undefined("vanishing denominator")
-        form = {}
-        for m, c in comb.items():
-            if len(m) != 1:
-                raise Unsupported(f"non-linear denominator {comb}")
-            form[m[0]] = c
-        # primitive integer form
+        if () in comb and len(comb) == 1:
+            return [(Fraction(1) / comb[()] ** power, ())]
         den = 1
-        for c in form.values():
+        for c in comb.values():
             den = den * c.denominator // gcd(den, c.denominator)
-        ints = {v: int(c * den) for v, c in form.items()}
+        ints = {m: int(c * den) for m, c in comb.items()}
         g = 0
         for c in ints.values():
             g = gcd(g, abs(c))
         items = sorted(ints.items())
         sgn = 1 if items[0][1] > 0 else -1
-        prim = tuple((v, sgn * c // g) for v, c in items)
-        scale = Fraction(sgn * g, den)   # form = scale * prim
+        prim = tuple((m, sgn * c // g) for m, c in items)
+        scale = Fraction(sgn * g, den)   # polynomial = scale * prim
         inv = self.vars.get(("I", prim))
         return [(Fraction(1) / scale ** power, (inv,) * power)]
 
